@@ -1,49 +1,69 @@
-import QR.Model.Matrix
-import QR.Spec.Geometry
-import QR.Proofs.Finite
+import QR.Proofs.TypeInfo
+import QR.Proofs.Blank
 /-
-C04 - format and version information are the correct BCH codewords (finite part: the two codes, the level
-indicators).  Spec side: "top bits = data, divisible by the generator" computed by fixed-length long division;
-Model side: the `while BCH_digit(d) - BCH_digit(G) >= 0` loops over the constants translated from the source.
+C04 - format and version information are the correct BCH codewords in both copies, each bit at its ISO-assigned module.
+Model side: setup_type_info / setup_type_number (loops with the code's `i < 6 / i < 8 / i < 9` arithmetic) and the
+`while BCH_digit(d) - BCH_digit(G) >= 0` division loops over constants regenerated from the source.
+Spec side: format/version words as "top bits = data, divisible by the generator" (+ mask 101010000010010), the literal ISO
+coordinate lists fmtPos1/fmtPos2/verPos1/verPos2, the dark module.
 -/
 namespace QR.Props
 open QR
 
-set_option maxRecDepth 100000 in
 /-- `util.BCH_type_info(d)` is the ISO format word for all 32 (level, mask) inputs -/
-theorem C04_bch15 : ∀ d, d < 32 → Model.bchTypeInfo d = Spec.formatWord d := by
-  have h : (List.range 32).all (fun d => Model.bchTypeInfo d == Spec.formatWord d) = true := by decide +kernel
-  intro d hd; simpa using forall_lt_of_all h d hd
+theorem C04_format_code : ∀ d, d < 32 → Model.bchTypeInfo d = Spec.formatWord d := C04_bch15
 
-set_option maxRecDepth 100000 in
-/-- `util.BCH_type_number(v)` is the ISO version word for every version (in particular 7..40) -/
-theorem C04_bch18 : ∀ v, v < 64 → Model.bchTypeNumber v = Spec.versionWord v := by
-  have h : (List.range 64).all (fun v => Model.bchTypeNumber v == Spec.versionWord v) = true := by decide +kernel
-  intro v hv; simpa using forall_lt_of_all h v hv
+/-- `util.BCH_type_number(v)` is the ISO version word (in particular for versions 7..40) -/
+theorem C04_version_code : ∀ v, v < 64 → Model.bchTypeNumber v = Spec.versionWord v := C04_bch18
 
-set_option maxRecDepth 100000 in
-/-- the Spec's format words are BCH(15,5) codewords (divisible by the generator once the mask is removed),
-    carry their data in the top five bits and are pairwise distinct: the spec is self-consistent -/
-theorem C04_spec_format_sound :
-    ∀ d, d < 32 → Spec.gf2rem 0x537 10 5 (Spec.formatWord d ^^^ 0x5412) = 0
-      ∧ (Spec.formatWord d ^^^ 0x5412) >>> 10 = d ∧ Spec.formatWord d < 2 ^ 15 := by
-  have h : (List.range 32).all (fun d => Spec.gf2rem 0x537 10 5 (Spec.formatWord d ^^^ 0x5412) == 0
-      && (Spec.formatWord d ^^^ 0x5412) >>> 10 == d && decide (Spec.formatWord d < 2 ^ 15)) = true := by decide +kernel
-  intro d hd; simpa [Bool.and_eq_true, and_assoc] using forall_lt_of_all h d hd
+/-- the Spec's words really are BCH(15,5) / BCH(18,6) codewords carrying their data in the top bits -/
+theorem C04_spec_sound :
+    (∀ d, d < 32 → Spec.gf2rem 0x537 10 5 (Spec.formatWord d ^^^ 0x5412) = 0 ∧ (Spec.formatWord d ^^^ 0x5412) >>> 10 = d ∧ Spec.formatWord d < 2 ^ 15) ∧
+    (∀ v, v < 64 → Spec.gf2rem 0x1F25 12 6 (Spec.versionWord v) = 0 ∧ Spec.versionWord v >>> 12 = v) :=
+  ⟨C04_spec_format_sound, C04_spec_version_sound⟩
 
-set_option maxRecDepth 100000 in
-theorem C04_spec_version_sound :
-    ∀ v, v < 64 → Spec.gf2rem 0x1F25 12 6 (Spec.versionWord v) = 0 ∧ Spec.versionWord v >>> 12 = v := by
-  have h : (List.range 64).all (fun v => Spec.gf2rem 0x1F25 12 6 (Spec.versionWord v) == 0
-      && Spec.versionWord v >>> 12 == v) = true := by decide +kernel
-  intro v hv; simpa [Bool.and_eq_true] using forall_lt_of_all h v hv
-
-/-- the integers the library uses for the levels are the ISO two-bit indicators (L=01 M=00 Q=11 H=10) -/
-theorem C04_level :
+/-- the integers used for the levels are the ISO two-bit indicators -/
+theorem C04_levels :
     Gen.ERROR_CORRECT_L = Spec.Level.L.indicator ∧ Gen.ERROR_CORRECT_M = Spec.Level.M.indicator ∧
-    Gen.ERROR_CORRECT_Q = Spec.Level.Q.indicator ∧ Gen.ERROR_CORRECT_H = Spec.Level.H.indicator := by decide
+    Gen.ERROR_CORRECT_Q = Spec.Level.Q.indicator ∧ Gen.ERROR_CORRECT_H = Spec.Level.H.indicator := C04_level
 
-/-- published examples (tests of the Spec, not proofs): format word for M / mask 101, version words 7 and 40 -/
+/-- **C04 (writer)**: for all 40 versions, 4 levels, 8 masks, test/final: after setup_type_info (+ setup_type_number for
+    v ≥ 7) every format / version / dark-module cell holds exactly the bit the ISO layout assigns to it (`Spec.infoCell`:
+    bit i of the format word at fmtPos1[i] and fmtPos2[i], bit i of the version word at verPos1[i] and verPos2[i], dark
+    module dark; all light in test mode), and every other cell is untouched -/
+theorem C04_written (v level mask : Nat) (test : Bool) (m : Model.Mat)
+    (hv1 : 1 ≤ v) (hv40 : v ≤ 40) (hl : level < 4) (hk : mask < 8) (hm : MatShape m (Spec.size v)) :
+    let n := Spec.size v
+    let m' := (if v ≥ 7 then Model.setupTypeNumber n v (Model.setupTypeInfo n level m test mask) test
+               else Model.setupTypeInfo n level m test mask)
+    MatShape m' n ∧ ∀ r c, r < n → c < n →
+      m'.get r c = (match Spec.infoCell v level mask test r c with | some b => some b | none => m.get r c) :=
+  QR.GeoB.typeInfo_get v level mask test m hv1 hv40 hl hk hm
+
+/-- the cells written are exactly the format, version and dark-module cells of the ISO layout ... -/
+theorem C04_cells (v level mask : Nat) (hv : 1 ≤ v) (test : Bool) (r c : Nat)
+    (hr : r < Spec.size v) (hc : c < Spec.size v) :
+    (Spec.infoCell v level mask test r c).isSome = true ↔
+      (Spec.inFormat (Spec.size v) r c = true ∨ Spec.isDarkModule (Spec.size v) r c = true ∨
+        Spec.inVersion v (Spec.size v) r c = true) :=
+  QR.GeoB.infoCell_isSome_iff v level mask hv test r c hr hc
+
+/-- ... and none of them is a finder / separator / timing / alignment cell (they are still `None` in the cached blank) -/
+theorem C04_disjoint (v r c : Nat) (hv1 : 1 ≤ v) (hv40 : v ≤ 40)
+    (h : Spec.inFormat (Spec.size v) r c = true ∨ Spec.inVersion v (Spec.size v) r c = true ∨
+      Spec.isDarkModule (Spec.size v) r c = true) : Spec.blankCell v r c = none :=
+  QR.GeoB.blankCell_none_of_info v r c hv1 hv40 h
+
+/-- **C04 (reader)**: any symbol whose format/version cells hold those bits is read back by the strict Spec reader as
+    exactly (level, mask), with both copies equal, and passes the version-information test -/
+theorem C04_read_back (S : Spec.Sym) (v level mask : Nat) (l : Spec.Level)
+    (hv1 : 1 ≤ v) (hv40 : v ≤ 40) (hl : level < 4) (hk : mask < 8)
+    (hlv : Spec.Level.ofIndicator level = some l) (hn : S.n = Spec.size v)
+    (hS : ∀ r c b, Spec.infoCell v level mask false r c = some b → S.get r c = b) :
+    Spec.readFormat S = .ok (l, mask) ∧ Spec.versionInfoOK S v = true :=
+  QR.GeoB.reader_of_infoCell S v level mask l hv1 hv40 hl hk hlv hn hS
+
+/-- published examples (tests of the Spec): format word for M / mask 101, version words 7 and 40 -/
 example : Spec.formatWord 0b00101 = 0b100000011001110 := by decide
 example : Spec.versionWord 7 = 0x07C94 ∧ Spec.versionWord 40 = 0x28C69 := by decide
 
